@@ -1,10 +1,17 @@
 /-
-Class-level instantiation of the combinator model: `audioBlockFormat` with `typeDefinition == "Objects"`
-(`make_block_format_objects_handler`) with every hand-written handler concrete.  Core Lean only.
+Class-level instantiation of the combinator model with every hand-written handler concrete: the block formats of
+the five types (`make_block_format_*_handler`), the Matrix coefficient, loudnessMetadata, the reference screen,
+audioObjectInteraction and alternativeValueSet, for BS.2076-1 and -2.  Core Lean only.
 
-The value type `XV` extends the leaves with the structured values of the hand-written handlers; the
-property list is built from the rows of the regenerated table (`ofRowG`) with the concrete handler
-implementations chosen by the handler names recorded in the rows.
+* `XV` extends the leaves with the structured values of the hand-written handlers and with the nested element
+  classes (plain data: values on the printable grid, references as id strings).
+* `singleImpl`, `listImpl`, `xpathImpl` are the recurring shapes of the hand-written handlers (`as_handler`,
+  `as_list_handler` / the audioBlockFormat handler, the `GenericElement`s that read their own children through
+  `xpath`); the concrete parsers (`objPs`, `dsPs`, …) are what `ofRowG` builds from the rows of the regenerated
+  table (`Proofs/C08Blocks.lean`, `Proofs/C08Tables.lean`).
+* `…toObj` is an object seen through the constructor-argument names, `…ofObj` the class constructor on keyword
+  arguments (defined on the grid: a gain read with `gainUnit="dB"` is not representable in a nested element and makes
+  `ofObj` fail — outside the model, see the harness).
 -/
 import Earverif.Model.XmlCustom
 
@@ -711,14 +718,17 @@ def matrixPs (v2 : Bool) : List (Property XV) :=
     .attrElement "outputChannelIDRef" "outputChannelFormatIDRef" (liftCodec stringCodec) false noneLeaf true,
     .customElement "matrix" none false (matrixImpl v2), gainElemV2 v2, importanceV2 v2 ]
 
-/-- the constructor defaults shared by the block-format classes: `gain=1.0`, `importance=10`, the rest `None`
-(`position` has no usable default: it is always written; `speakerLabel` is a list) -/
+/-- the constructor defaults shared by the block-format classes: `gain=1.0`, `importance=10`, the rest `None` -/
 def blockDefaults : Obj XV := fun a =>
   if a = "gain" then .one (.leaf (.num 100000))
   else if a = "importance" then .one (.leaf (.int 10))
-  else if a = "speakerLabel" then .many []
-  else if a = "matrix" then .one (.coeffs [])
   else .one noneLeaf
+
+/-- `AudioBlockFormatDirectSpeakers`: `speakerLabel` is a list (`position` has no usable default: always written) -/
+def dsDefaults : Obj XV := fun a => if a = "speakerLabel" then .many [] else blockDefaults a
+
+/-- `AudioBlockFormatMatrix`: `matrix` is a list -/
+def matrixDefaults : Obj XV := fun a => if a = "matrix" then .one (.coeffs []) else blockDefaults a
 
 def DirectSpeakersBlock.toObj (b : DirectSpeakersBlock) : Obj XV := fun a =>
   if a = "id" then .one (.leaf (.str b.id))
@@ -822,7 +832,11 @@ def blockPs (v2 : Bool) (ty : String) : List (Property XV) :=
   else if ty = "Matrix" then matrixPs v2
   else []
 
-def blockCd (ty : String) : Obj XV := if ty = "Objects" then objectsDefaults else blockDefaults
+def blockCd (ty : String) : Obj XV :=
+  if ty = "Objects" then objectsDefaults
+  else if ty = "DirectSpeakers" then dsDefaults
+  else if ty = "Matrix" then matrixDefaults
+  else blockDefaults
 
 /-- `handlers[type].parse(el)`, including the class constructor -/
 def parseBlock (v2 : Bool) (ty : String) (x : Xml) : Option Block :=
